@@ -174,10 +174,11 @@ def param_types(tu, f):
 
 
 def explore_entry(tu, fname, make_args, table_factory, extra_leafs=None, argv=None, envp=None, max_paths=3000,
-                  errno_value=None):
+                  errno_value=None, extern_hook=None):
     """PE one function. make_args(it, state) -> [args]; table_factory() -> list of descriptor dicts"""
     state = {}
     it = make_interp(tu, state, extra_leafs, max_paths)
+    it.extern_hook = extern_hook
 
     def setup():
         state.clear()
